@@ -10,6 +10,7 @@ use std::cell::RefCell;
 use std::io::{BufRead, BufReader, Write};
 use std::panic::{catch_unwind, AssertUnwindSafe};
 
+use quote::ToTokens;
 use schemars::schema::{RootSchema, Schema, SchemaObject};
 use serde_json::{json, Map, Value};
 use typify_impl::{
@@ -527,8 +528,23 @@ fn run_case(case: &Value) -> Value {
     Value::Object(out)
 }
 
+/// `vgen --facts <in.rs> <out.json>`: syn facts (with per-item token digests) of a Rust source file.
+fn facts_mode(args: &[String]) {
+    let text = std::fs::read_to_string(&args[2]).expect("read source");
+    let out = match syn::parse_file(&text) {
+        Ok(file) => json!({"syn": "ok", "facts": facts::file_facts(&file),
+                           "inner_attrs": file.attrs.iter().map(|a| a.to_token_stream().to_string()).collect::<Vec<_>>()}),
+        Err(e) => json!({"syn": "err", "syn_msg": e.to_string()}),
+    };
+    std::fs::write(&args[3], out.to_string()).expect("write facts");
+}
+
 fn real_main() {
     let args: Vec<String> = std::env::args().collect();
+    if args.len() >= 4 && args[1] == "--facts" {
+        facts_mode(&args);
+        return;
+    }
     if args.len() < 3 {
         eprintln!("usage: vgen <cases.jsonl> <out.jsonl>");
         std::process::exit(2);
